@@ -103,7 +103,9 @@ def changed(repo):
     try:
         pin = json.load(open(PIN))
     except Exception:
-        return [dict(file='?', unit='?', kind='no-pin', new_ints=[], new_strs=[])]
+        return []
+    if pin.pop('<python>', None) != list(sys.version_info[:2]):
+        return []            # ast.dump is not stable across Python versions: no opinion, no extra effort
     cur = scan(repo)
     out = []
     for f in sorted(set(pin) | set(cur)):
@@ -132,7 +134,9 @@ if __name__ == '__main__':
     if '--pin' in sys.argv:
         os.makedirs(os.path.dirname(PIN), exist_ok=True)
         with open(PIN, 'w') as fh:
-            json.dump(scan(repo), fh, indent=0, sort_keys=True)
+            d = scan(repo)
+            d['<python>'] = list(sys.version_info[:2])
+            json.dump(d, fh, indent=0, sort_keys=True)
         print('pinned', PIN)
     else:
         ch = changed(repo)
